@@ -6,9 +6,9 @@ package interp
 
 import (
 	"fmt"
-	"math/big"
 	"go/token"
 	"go/types"
+	"math/big"
 	"sort"
 	"strings"
 
@@ -220,41 +220,44 @@ type memoEnt struct {
 
 // PathCtx is the state of one path execution.
 type PathCtx struct {
-	Solver       *smt.Solver
-	prefix       string
-	pos          int
-	decisions    []byte
-	pc           []*smt.Term
-	memo         map[uint64][]memoEnt
-	model        *smt.Model
-	eval         *smt.Evaluator
-	Pending      []Pending
-	Violations   []Violation
-	Reached      map[string]bool
-	Observations []Observation
-	inputs       []inputVar
-	inputByName  map[string]int
-	steps        int64
-	MaxSteps     int64
-	MaxDecisions int
-	Known        map[string]bool
-	Funcs        map[*ssa.Function]int64
-	goQueue      []goTask
-	Stubs        map[string]bool
-	NondetMaps   bool
-	IntMode      bool
-	fresh        int
-	clock        value // harness-controlled clock for time.Now
-	forkCount    int
-	queries      int
-	QueryLog     []string // standalone scripts of assertion queries (when enabled)
-	LogQueries   bool
-	intInputs    map[string]bool
-	obsRaw       []rawObs
-	oneShots     int
-	divs         []divEnt
-	Overflows    int
-	rlpBlobs     []iface
+	Solver        *smt.Solver
+	prefix        string
+	pos           int
+	decisions     []byte
+	pc            []*smt.Term
+	memo          map[uint64][]memoEnt
+	model         *smt.Model
+	eval          *smt.Evaluator
+	Pending       []Pending
+	Violations    []Violation
+	Reached       map[string]bool
+	Observations  []Observation
+	inputs        []inputVar
+	inputByName   map[string]int
+	steps         int64
+	MaxSteps      int64
+	MaxDecisions  int
+	Known         map[string]bool
+	Funcs         map[*ssa.Function]int64
+	goQueue       []goTask
+	Stubs         map[string]bool
+	NondetMaps    bool
+	IntMode       bool
+	fresh         int
+	clock         value // harness-controlled clock for time.Now
+	forkCount     int
+	queries       int
+	QueryLog      []string // standalone scripts of assertion queries (when enabled)
+	LogQueries    bool
+	intInputs     map[string]bool
+	obsRaw        []rawObs
+	oneShots      int
+	divs          []divEnt
+	Overflows     int
+	rlpBlobs      []iface
+	timers        []*timerRec
+	yieldFn       value
+	condSignalled bool
 }
 
 type divEnt struct {
